@@ -116,6 +116,62 @@ func TestVerifC07(t *testing.T) {
 					open(a, c, pr, wpt, wok)
 					n++
 				}
+				// a rejected message must not leave its decryption in a caller-supplied dst (buffer reuse
+				// and in-place idioms); judged only when >= 4 plaintext bytes would be recognisable
+				if len(c.pt) >= 4 && len(sealed) > 0 {
+					for _, kind := range []string{"tag-bit", "ciphertext-bit", "aad"} {
+						bad := append([]byte{}, sealed...)
+						aadP := c.aad
+						switch kind {
+						case "tag-bit":
+							bad = flipBit(sealed, (len(sealed)-1)*8+lr.Intn(8))
+						case "ciphertext-bit":
+							bad = flipBit(sealed, lr.Intn(len(c.pt)*8))
+						default:
+							aadP = append(append([]byte{}, c.aad...), 7)
+						}
+						wouldBe := make([]byte, len(c.pt))
+						{
+							// CTR decryption of the forged ciphertext by the model (what a decrypt-before-verify would produce)
+							j0 := g.J0(c.nonce)
+							copy(wouldBe, refCTR(g, j0, bad[:len(c.pt)]))
+						}
+						for _, inplace := range []bool{false, true} {
+							var buf, in []byte
+							if inplace {
+								in = append([]byte{}, bad...)
+								buf = in[:0]
+							} else {
+								in = bad
+								back := make([]byte, len(c.pt)+16)
+								for i := range back {
+									back[i] = 0xA7
+								}
+								buf = back[:0]
+							}
+							var pt []byte
+							var oerr error
+							p, msg, _, _ := hk.Try(func() { pt, oerr = a.Open(buf, c.nonce, in, aadP) })
+							full := buf[:len(c.pt)]
+							if p {
+								dd := c.detail()
+								dd["panic"] = msg
+								r.Violation(fmt.Sprintf("open-panics:%s:forged-with-dst", pn), dd)
+							} else if oerr == nil {
+								r.Violation(fmt.Sprintf("forgery-accepted:%s:%s-with-dst", pn, kind), c.detail())
+							} else if len(pt) != 0 {
+								r.Violation(fmt.Sprintf("plaintext-returned-with-error:%s:%s-with-dst", pn, kind), c.detail())
+							} else if bytes.Equal(full, wouldBe) && !bytes.Equal(wouldBe, make([]byte, len(wouldBe))) && !bytes.Equal(wouldBe, bytes.Repeat([]byte{0xA7}, len(wouldBe))) && !bytes.Equal(wouldBe, bad[:len(wouldBe)]) {
+								// (an all-zero, untouched-pattern or ciphertext-equal "plaintext" would be indistinguishable from a
+								// harmlessly cleared / untouched buffer and is not judged)
+								dd := c.detail()
+								dd["dst_after_failed_open"], dd["inplace"], dd["forgery"] = hk.Hex(full), inplace, kind
+								r.Violation(fmt.Sprintf("plaintext-released-into-dst-on-authentication-failure:%s:inplace=%v", pn, inplace), dd)
+							}
+							n++
+						}
+					}
+				}
 				// the same buffers opened again after all of the above: still authentic
 				open(a, c, openProbe{c.nonce, sealed, c.aad, "authentic-reopened"}, c.pt, true)
 				r.EvalN(pn+"|"+c.class(), n+1)
@@ -200,4 +256,9 @@ func flipBit(b []byte, bit int) []byte {
 	o := append([]byte{}, b...)
 	o[bit/8] ^= 1 << uint(bit%8)
 	return o
+}
+
+// refCTR is the model's CTR keystream application starting at inc32(J0).
+func refCTR(g *ref.GCM, j0 [16]byte, in []byte) []byte {
+	return g.CTR(j0, in)
 }
